@@ -102,6 +102,21 @@ func removeSourcePrecedence(rbacIxns []*rbacIntention, intentionDefaultAction in
 		return nil
 	}
 
+	// An intention whose source is entirely covered by the source of a higher
+	// precedence intention (for example "web -> *" below "* -> api") can never
+	// be the deciding one for this destination. Drop it, the same way
+	// removeSameSourceIntentions drops exact duplicates; otherwise its action
+	// would wrongly apply to callers that the broader, higher precedence
+	// intention already decided.
+	for j := 1; j < len(rbacIxns); j++ {
+		for i := 0; i < j; i++ {
+			if ixnSourceMatches(rbacIxns[j].Source, rbacIxns[i].Source) {
+				rbacIxns[j].Skip = true
+				break
+			}
+		}
+	}
+
 	// Remove source precedence:
 	//
 	// First walk backwards and add each intention to all subsequent statements
